@@ -26,7 +26,49 @@ type c20Scenario struct {
 	Final   []c20Op
 }
 
-func c20Scenarios() []c20Scenario {
+func c20Scenarios(thorough bool) []c20Scenario {
+	out := c20HandScenarios()
+	// generated: every 2-thread program with (1,≤2) operations per thread
+	// (thorough: (≤2,≤2)) over a small colliding alphabet, from three setups.
+	alpha := []c20Op{{Op: "get", Key: "a"}, {Op: "set", Key: "a", Size: 2}, {Op: "set", Key: "b", Size: 3},
+		{Op: "delete", Key: "a"}, {Op: "clear"}, {Op: "stats"}}
+	var seqs1, seqs2 [][]c20Op
+	for _, x := range alpha {
+		seqs1 = append(seqs1, []c20Op{x})
+		for _, y := range alpha {
+			seqs2 = append(seqs2, []c20Op{x, y})
+		}
+	}
+	all := append(append([][]c20Op{}, seqs1...), seqs2...)
+	left := seqs1
+	if thorough {
+		left = all
+	}
+	setups := []struct {
+		name string
+		cfg  c20Config
+		ops  []c20Op
+	}{
+		{"empty-cap1", c20Config{1, 0, 0}, nil},
+		{"a-cap2", c20Config{2, 0, 0}, []c20Op{{Op: "set", Key: "a", Size: 3}}},
+		{"ab-cap2-max6", c20Config{2, 6, 0}, []c20Op{{Op: "set", Key: "a", Size: 2}, {Op: "set", Key: "b", Size: 2}}},
+	}
+	fin := []c20Op{{Op: "get", Key: "a"}, {Op: "get", Key: "b"}, {Op: "stats"}}
+	for _, su := range setups {
+		for i, l := range left {
+			for j, r := range all {
+				if len(l) == len(r) && j < i {
+					continue // unordered pair already covered
+				}
+				name := fmt.Sprintf("gen/%s/%v||%v", su.name, l, r)
+				out = append(out, c20Scenario{name, su.cfg, su.ops, [][]c20Op{l, r}, fin})
+			}
+		}
+	}
+	return out
+}
+
+func c20HandScenarios() []c20Scenario {
 	g := func(k string) c20Op { return c20Op{Op: "get", Key: k} }
 	s := func(k string, n int) c20Op { return c20Op{Op: "set", Key: k, Size: n} }
 	d := func(k string) c20Op { return c20Op{Op: "delete", Key: k} }
@@ -42,6 +84,8 @@ func c20Scenarios() []c20Scenario {
 			[][]c20Op{{{Op: "tick"}}, {g("a"), s("a", 3)}, {g("b")}}, fin},
 		{"clear-vs-set-get", c20Config{2, 0, 0}, []c20Op{s("a", 1)}, [][]c20Op{{{Op: "clear"}}, {s("b", 1), g("a")}}, fin},
 		{"stats-vs-set", c20Config{2, 0, 0}, nil, [][]c20Op{{st}, {s("a", 3)}, {s("b", 1)}}, fin},
+		{"get-get-same-key", c20Config{2, 0, 0}, []c20Op{s("a", 1), s("b", 1)}, [][]c20Op{{g("a")}, {g("a")}, {g("b")}}, fin},
+		{"delete-vs-delete-set", c20Config{2, 0, 0}, []c20Op{s("a", 1)}, [][]c20Op{{d("a")}, {d("a"), s("a", 3)}}, fin},
 	}
 }
 
@@ -83,8 +127,8 @@ func c20Do(c *LRUCache, o c20Op, concurrent bool) string {
 }
 
 type c20Obs struct {
-	ops    []vk.LinOp
-	flat   []c20Op
+	ops     []vk.LinOp
+	flat    []c20Op
 	struct_ string
 }
 
@@ -190,7 +234,8 @@ func c20SchedKey(sc c20Scenario, fail string) string {
 		kind = fail[:i]
 	}
 	if strings.HasPrefix(fail, "data race") {
-		kind = fail // race sites are part of the identity
+		// a race is identified by its two access sites, whatever scenario exposes it
+		return "sched/" + vrt.RaceKey(fail)
 	}
 	return "sched/" + sc.Name + "/" + kind
 }
@@ -201,7 +246,7 @@ func c20Schedules(p vk.Params, res *vk.Result) {
 		bound = 3
 	}
 	res.Bounds["preemption_bound"] = bound
-	scs := c20Scenarios()
+	scs := c20Scenarios(p.Thorough)
 	res.Bounds["schedule_scenarios"] = len(scs)
 	for si, sc := range scs {
 		if !p.Mine(si) {
@@ -230,8 +275,12 @@ func c20Schedules(p vk.Params, res *vk.Result) {
 		res.States += int64(st.States)
 		res.Distinct += outcomes.Len()
 		res.Count("schedules", int64(st.Execs))
-		res.Count("sched_outcomes_"+sc.Name, outcomes.Len())
-		if outcomes.Len() <= 1 {
+		if !strings.HasPrefix(sc.Name, "gen/") {
+			res.Count("sched_outcomes_"+sc.Name, outcomes.Len())
+		} else if outcomes.Len() > 1 {
+			res.Count("generated_scenarios_with_several_outcomes", 1)
+		}
+		if outcomes.Len() <= 1 && !strings.HasPrefix(sc.Name, "gen/") {
 			res.Note("scenario %s: only one distinct outcome over %d schedules (nothing collided)", sc.Name, st.Execs)
 		}
 		if !st.Complete {
@@ -243,7 +292,7 @@ func c20Schedules(p vk.Params, res *vk.Result) {
 }
 
 func c20ReplaySchedule(rp c20Replay, res *vk.Result) bool {
-	for _, sc := range c20Scenarios() {
+	for _, sc := range c20Scenarios(true) {
 		if sc.Name != rp.Scenario {
 			continue
 		}
